@@ -123,9 +123,12 @@ EvDelBody(p) == /\ pc[p] = "evdelbody" /\ body' = [body EXCEPT ![loc[p].ek] = Ni
 UsedIdx == {h.idx : h \in heap}
 HeapPut(p) == /\ pc[p] = "heapput"
               \* the tracking index is an internal name: any index that is not in use (the code re-uses the indices of
-              \* removed entries in its own order; never more than one per key are alive).  AnyIdx = FALSE picks the smallest one:
+              \* removed entries in its own order).  AnyIdx = FALSE picks the smallest one:
               \* a symmetry reduction for the design check, where the name cannot matter; trace validation uses TRUE
-              /\ \E i \in 0..Cardinality(Keys) : i \notin UsedIdx /\ (AnyIdx \/ \A j \in 0..(i - 1) : j \in UsedIdx)
+              \* (a no-cache refresh leaves the superseded entry of its key in the heap until it is evicted, so the heap can hold more
+              \* entries than there are keys: the range grows with the heap and the step is never disabled)
+              /\ \E i \in 0..(Cardinality(heap) + (IF AnyIdx THEN Cardinality(Keys) + Cardinality(Procs) ELSE 0)) :
+                    /\ i \notin UsedIdx /\ (AnyIdx \/ \A j \in 0..(i - 1) : j \in UsedIdx)
                     /\ heap' = heap \cup {[key |-> loc[p].key, exp |-> loc[p].ts + Exp, bytes |-> Need(p), idx |-> i]}
                     /\ loc' = [loc EXCEPT ![p].hidx = i]
               /\ stored' = stored + Need(p) /\ U(p, "setbody")
